@@ -194,6 +194,9 @@ var $subslice = (slice, low, high, max) => {
 };
 
 var $substring = (str, low, high) => {
+    if (high === undefined) {
+        high = str.length; /* s[low:] */
+    }
     if (low < 0 || high < low || high > str.length) {
         $throwRuntimeError("slice bounds out of range");
     }
